@@ -21,12 +21,12 @@ func NewSimDB() *SimDB {
 
 func (d *SimDB) note(n int) { d.Writes[d.Phase] += n }
 
-func (d *SimDB) Set(k, v []byte) error        { d.note(1); return d.MemDB.Set(k, v) }
-func (d *SimDB) SetSync(k, v []byte) error    { d.note(1); return d.MemDB.SetSync(k, v) }
-func (d *SimDB) Delete(k []byte) error        { d.note(1); return d.MemDB.Delete(k) }
-func (d *SimDB) DeleteSync(k []byte) error    { d.note(1); return d.MemDB.DeleteSync(k) }
-func (d *SimDB) Close() error                 { return nil } // the disk outlives the process
-func (d *SimDB) NewBatch() dbm.Batch          { return &simBatch{Batch: d.MemDB.NewBatch(), d: d} }
+func (d *SimDB) Set(k, v []byte) error          { d.note(1); return d.MemDB.Set(k, v) }
+func (d *SimDB) SetSync(k, v []byte) error      { d.note(1); return d.MemDB.SetSync(k, v) }
+func (d *SimDB) Delete(k []byte) error          { d.note(1); return d.MemDB.Delete(k) }
+func (d *SimDB) DeleteSync(k []byte) error      { d.note(1); return d.MemDB.DeleteSync(k) }
+func (d *SimDB) Close() error                   { return nil } // the disk outlives the process
+func (d *SimDB) NewBatch() dbm.Batch            { return &simBatch{Batch: d.MemDB.NewBatch(), d: d} }
 func (d *SimDB) NewBatchWithSize(int) dbm.Batch { return d.NewBatch() }
 
 type simBatch struct {
@@ -49,8 +49,8 @@ func (d *SimDB) Clone() *SimDB {
 	}
 	defer it.Close()
 	for ; it.Valid(); it.Next() {
-		k := append([]byte(nil), it.Key()...)
-		v := append([]byte(nil), it.Value()...)
+		k := append([]byte{}, it.Key()...)
+		v := append([]byte{}, it.Value()...)
 		if err := c.MemDB.Set(k, v); err != nil {
 			panic(err)
 		}
